@@ -679,9 +679,38 @@ pub fn detached_remote<A: Actor>(node_id: u64, pid: u64) -> Result<Detached, Spa
     })
 }
 
+/// Create what `ActorRuntime::spawn_linked_remote` creates (a proxy cell for an actor living on
+/// another node: never entered into the name or pid registries), without a task
+#[cfg(feature = "cluster")]
+pub fn detached_remote_named<A: Actor>(
+    name: Option<String>,
+    id: crate::ActorId,
+) -> Result<Detached, SpawnErr> {
+    let (cell, ports) = ActorCell::new_remote::<A>(name, id)?;
+    let guard = ActorLifecycleGuard::new(cell.clone());
+    Ok(Detached {
+        cell,
+        ports: Some(ports),
+        guard: Some(guard),
+    })
+}
+
 /// publish a status on a cell the way its actor task would (no `Detached` borrow needed)
 pub fn set_status(cell: &ActorCell, st: ActorStatus) -> ActorStatus {
     cell.set_status(st)
+}
+
+thread_local! {
+    static PID_FAULT: Cell<bool> = const { Cell::new(false) };
+}
+
+/// Make the next `register_pid` on this thread fail (exercises the name rollback in `ActorCell::new`)
+pub fn inject_pid_fault() {
+    PID_FAULT.with(|c| c.set(true));
+}
+
+pub(crate) fn take_pid_fault() -> bool {
+    PID_FAULT.with(|c| c.replace(false))
 }
 
 impl Detached {
@@ -740,6 +769,11 @@ impl Detached {
     pub fn terminate(&self) {
         self.cell.terminate();
     }
+}
+
+/// `ActorCell::set_status` from outside the crate (a second caller racing the lifecycle guard)
+pub fn cell_set_status(cell: &ActorCell, st: ActorStatus) -> ActorStatus {
+    cell.set_status(st)
 }
 
 /// raw admission word of a cell
